@@ -588,7 +588,9 @@ def generate(case, ifaces, plans, typed=True):
     where = file_of_iface(case)
     stems = []
     for i in ifaces:
-        s = stem_of(where[i])
+        # the generated tree mirrors the IDL tree: a file in a sub-directory is included by its
+        # relative path (no flat forwarding header that could stand in for a wrongly named include)
+        s = os.path.splitext(os.path.normpath(where[i]))[0]
         if s not in stems:
             stems.append(s)
     w(PRELUDE)
